@@ -37,6 +37,15 @@ pub fn create_module() -> Scope {
             }
             _ => Ok(Value::Null),
         },
+        v @ Value::ArgList(..) => {
+            // An argument list is a list of its arguments.
+            let (list, _, _) = get_list(v);
+            let value = s.get(name!(value))?;
+            Ok(list
+                .iter()
+                .position(|v| v == &value)
+                .map_or(Value::Null, |i| Value::scalar(i + 1)))
+        }
         v => {
             if v == s.get(name!(value))? {
                 Ok(Value::scalar(1))
